@@ -10,7 +10,7 @@ M = "vf.contracts.truth"
 FUNCTIONS = ["Backend.__init__", "Backend.downsize", "BackendZ3._is_true", "BackendZ3._is_false", "Backend.is_true", "Backend.is_false", "BackendConcrete.is_true", "BackendConcrete.is_false", "BackendConcrete._is_true",
              "BackendConcrete._is_false", "bool_check.is_true", "bool_check.is_false"]
 TRUSTED = ["z3.simplify is meaning preserving (contract used for BackendZ3._is_true/_is_false: an equivalent term, the literal only if the fact holds)",
-           "C01: folding of concrete Bool expressions is exact (convert of a concrete Bool is its value)",
+           "C01: folding of concrete Bool expressions is exact (convert of a concrete Bool is its value); the comparison functions of the concrete backend themselves are proved here too (cbv.cmpm.* / cbv.cmpf.*, shared with C01)",
            "C06: the cache key e.hash() identifies the expression",
            "frontend is_true/is_false layers: ConcreteHandlerMixin and ConstraintFilterMixin are proved to answer True only if the fact holds in every model (layer.*.is_true / is_false, shared with C11); FullFrontend.is_true/is_false hand the question to the backend with the solver's constraints (fullfrontend.is_true/is_false, C11)",
            "BackendVSA._is_true/_is_false: relative to C24"]
@@ -25,6 +25,10 @@ def tasks(tier, seed=0):
         out.append(task(M, "ob_bool_check", f"truth.bool_check.{w}/sound", ["C10"], which=w))
         out.append(task(M, "ob_bool_check_node", f"truth.bool_check.{w}[structured-expression]/sound", ["C10"], which=w))
         out.append(task(M, "ob_z3_truth", f"truth.BackendZ3._{w}/sound-for-every-solver", ["C10"], which=w))
+    # the truth value of a concrete Boolean expression is what the concrete backend's comparison functions compute (is_true / is_false of an
+    # expression that an uneliminatable annotation keeps unfolded goes straight to them): the comparison obligations of C01, all widths
+    from vf.props import C01 as _C01
+    out += [t for t in _C01._cbv_tasks(tier) if ".cmpm." in t["id"] or ".cmpf." in t["id"]]
     from vf.contracts import layers
     out += [t for t in layers.all_tasks(tier, only=("ConcreteHandlerMixin", "ConstraintFilterMixin")) if t["id"].split("/")[0].endswith(("is_true", "is_false"))]
     out.append(task(M, "ob_backend_init_downsize", "truth.Backend.__init__+downsize/caches-separate-and-empty", ["C10"]))
